@@ -92,6 +92,20 @@ func (k fieldKey) String() string { return k.owner + "." + k.name }
 // ownerKey names the struct type that declares the field accessed by FieldAddr/Field v.
 // Anonymous struct types are named after the field path that reaches them from a named type.
 func ownerKey(v ssa.Value) (fieldKey, bool) {
+	k, ok := rawOwnerKey(v)
+	if ok {
+		if a, moved := fieldAlias[k]; moved {
+			return a, true
+		}
+	}
+	return k, ok
+}
+
+// fieldAlias: fields that moved into a new nested struct, keyed as they are now, valued as the rules know them
+// (rename.go movedFields; set by the loader).
+var fieldAlias = map[fieldKey]fieldKey{}
+
+func rawOwnerKey(v ssa.Value) (fieldKey, bool) {
 	base, st, idx, ok := fieldInfo(v)
 	if !ok {
 		return fieldKey{}, false
